@@ -187,3 +187,12 @@ package mux
 //@   props C10
 //@   ensures @dialled_is_returned_or_closed: result0 == nil && client != nil ==> client.closed
 //@   ensures @error_means_no_connection: result1 != nil ==> result0 == nil
+
+// C10 ("never exceeds the configured count"): both roles build their provider with exactly the configured number of
+// connection permits.
+//@ contract NewMuxReceiverProvider
+//@   props C10
+//@   callpre NewMuxProvider: @configured_capacity: $muxCount == connectionCapacity
+//@ contract NewMuxEstablisherProvider
+//@   props C10
+//@   callpre NewMuxProvider: @configured_capacity: $muxCount == connectionsCapacity
